@@ -266,9 +266,16 @@ class State:
         parts = var_attr_name.split(".")
         if len(parts) != 3:
             raise NameError(f"invalid name {var_attr_name} (should be 'domain.entity.attr')")
-        if not cls.exist(f"{parts[0]}.{parts[1]}"):
+        state_value = cls.hass.states.get(f"{parts[0]}.{parts[1]}")
+        if state_value is None:
             raise NameError(f"state {parts[0]}.{parts[1]} doesn't exist")
-        cls.set(f"{parts[0]}.{parts[1]}", **{parts[2]: value})
+        #
+        # pass the complete attribute dict instead of a keyword, since an attribute could be
+        # named like one of set()'s own parameters (eg, value, new_attributes or context)
+        #
+        new_attributes = state_value.attributes.copy()
+        new_attributes[parts[2]] = value
+        cls.set(f"{parts[0]}.{parts[1]}", new_attributes=new_attributes)
 
     @classmethod
     async def register_persist(cls, var_name):
